@@ -155,6 +155,18 @@ fn main() {
         let (w, l) = random_braid(&mut r, strands, len);
         if let Some(l) = l { links.push((format!("braid{}{:?}", strands, w), l)); }
     }
+    // the same diagrams with the crossings listed in another order and the edges relabelled (the reduced theory picks its base
+    // point from the code, the engine's elimination order follows it): every clause must hold for those codes as well
+    let mut variants: Vec<(String, Link)> = vec![];
+    for (name, l) in &links {
+        let n = l.crossing_num();
+        if n < 2 || n > (if thorough { 8 } else { 6 }) || !is_plain_pd(l) { continue }
+        if !thorough && variants.len() >= 8 { break }
+        let pd = pd_of(l);
+        let v = if r.bool() { reorder(&mut r, &pd) } else { let q = reorder(&mut r, &pd); renumber(&mut r, &q) };
+        variants.push((format!("{}~{:?}", name, v), link_of(&v)));
+    }
+    links.extend(variants);
     for (name, l) in &links {
         let n = l.crossing_num();
         if n > (if thorough { 9 } else { 8 }) { continue }
